@@ -785,10 +785,12 @@ class Oracle(stateful.Stateful):
         # A trial file whose id is not in `start_order` was left behind by a
         # `create_trial` call that did not complete (the process died before
         # `oracle.json` was written): that trial was never handed out.
+        # Keep the trials in the order they were started, not in the order the
+        # file system lists their files.
         self.trials = {
-            trial_id: trial
-            for trial_id, trial in self.trials.items()
-            if trial_id in self.start_order
+            trial_id: self.trials[trial_id]
+            for trial_id in self.start_order
+            if trial_id in self.trials
         }
 
         # Empty the ongoing_trials and send them for retry. The state may have
